@@ -64,7 +64,7 @@ var paramBinderRules = []emitRule{
 		Why: "item counts of nested arrays"},
 	{Name: "array parameters are bound item by item", Trees: []string{"serverParameter"}, Rx: `⟦template sliceparambinder \.⟧`, Min: 2,
 		Why: "array parameters go through the slice binder"},
-	{Name: "model body is validated", Trees: []string{"bodyvalidator"}, Rx: `body\.Validate\(route\.Formats\); err != nil \{\s*res = append\(res, err\)`, Need: []guardAtom{{"HasModelBodyParams", +1}}, Min: 1,
+	{Name: "model body is validated", Trees: []string{"bodyvalidator"}, Rx: `\.Validate\(route\.Formats\); err != nil \{\s*res = append\(res, err\)\s*\}\s*ctx := validate\.WithOperationRequest\(`, Need: []guardAtom{{"HasModelBodyParams", +1}}, Min: 1,
 		Why: "a body described by a model must satisfy the model's schema"},
 	{Name: "model body items are validated", Trees: []string{"bodyvalidator"}, Rx: `\.Validate\(route\.Formats\); err != nil \{\s*res = append\(res, err\)`, Min: 3,
 		Why: "items / values of bodies holding models are validated"},
@@ -122,7 +122,7 @@ func checkC03(c *Ctx) {
 		checkOrder(c, "C03.R4.serve-order", "serverOperation › ServeHTTP › New…Params → BindValidRequest → Handle", l,
 			"the handler must only see parameters that were created with defaults and then bound and validated",
 			`var Params = New⟦pascalize \.Name⟧Params\(\)`, `\.Context\.BindValidRequest\(r, route, &Params\); err != nil \{`, `\.Handler\.Handle\(Params`)
-		ok := regexp.MustCompile(`\.Context\.BindValidRequest\(r, route, &Params\); err != nil \{[^}]*\.Context\.Respond\([^}]*\berr\)\s*return\s*\}`).MatchString(l.Text)
+		ok := regexp.MustCompile(loosen(`\.Context\.BindValidRequest\(r, route, &Params\); err != nil \{[^}]*\.Context\.Respond\([^}]*\berr\)\s*return\s*\}`)).MatchString(l.Text)
 		c.Check(ok, "C03.R4.serve-order", "serverOperation › ServeHTTP › bind error responds and returns", l.Tree.File, "error arm ends in return", "the error arm of BindValidRequest does not respond with the error and return: the handler runs on an invalid request")
 	}
 }
@@ -135,16 +135,29 @@ func checkBinderLocations(c *Ctx, rule string, ev *tmpl.Evaluator) {
 		c.Anchor(rule, "template serverParameter", "not found")
 		return
 	}
+	// the query and form value sets are locals of the generated BindRequest: find their names
+	// from their definitions (runtime.Values(r.URL.Query()) / runtime.Values(r.Form))
+	qv, fv := "", ""
+	if m := regexp.MustCompile(`(\w+) := runtime\.Values\(\w+\.URL\.Query\(\)\)`).FindStringSubmatch(l.Text); m != nil {
+		qv = m[1]
+	}
+	if m := regexp.MustCompile(`(\w+) := runtime\.Values\(\w+\.Form\)`).FindStringSubmatch(l.Text); m != nil {
+		fv = m[1]
+	}
+	if qv == "" || fv == "" {
+		c.Bad(rule, "serverParameter › BindRequest › query / form value sets", l.Tree.File, "the query values are not taken from r.URL.Query() or the form values not from r.Form")
+		return
+	}
 	acc := []struct{ loc, rx string }{
-		{"IsQueryParam", `qs\.GetOK\(⟦\.Path⟧\)`},
+		{"IsQueryParam", `[^\w.]` + regexp.QuoteMeta(qv) + `\.GetOK\(⟦\.Path⟧\)`},
 		{"IsPathParam", `route\.Params\.GetOK\(⟦\.Path⟧\)`},
 		{"IsHeaderParam", `r\.Header\[http\.CanonicalHeaderKey\(⟦\.Path⟧\)\]`},
-		{"IsFormParam", `fds\.GetOK\(⟦\.Path⟧\)`},
+		{"IsFormParam", `[^\w.]` + regexp.QuoteMeta(fv) + `\.GetOK\(⟦\.Path⟧\)`},
 	}
 	locs := []string{"IsQueryParam", "IsPathParam", "IsHeaderParam", "IsFormParam"}
 	for _, a := range acc {
 		var scalar, array int
-		for _, oc := range l.Find(regexp.MustCompile(a.rx)) {
+		for _, oc := range l.Find(regexp.MustCompile(loosen(a.rx))) {
 			ok := tmpl.GuardHas(oc.Guards, a.loc, +1)
 			// under no other location's positive guard
 			for _, o := range locs {
@@ -165,11 +178,11 @@ func checkBinderLocations(c *Ctx, rule string, ev *tmpl.Evaluator) {
 			fmt.Sprintf("%s: %d scalar and %d array arms read from the %s source: parameters of that location and arity are never bound", a.loc, scalar, array, a.loc))
 	}
 	raw := len(regexp.MustCompile(`r\.Header\[`).FindAllString(l.Text, -1))
-	canon := len(regexp.MustCompile(`r\.Header\[http\.CanonicalHeaderKey\(`).FindAllString(l.Text, -1))
+	canon := len(regexp.MustCompile(loosen(`r\.Header\[http\.CanonicalHeaderKey\(`)).FindAllString(l.Text, -1))
 	c.Check(raw == canon && raw >= 2, rule, "serverParameter › BindRequest › header access canonicalised", l.Tree.File, fmt.Sprintf("%d accesses", raw), fmt.Sprintf("%d of %d direct r.Header[...] accesses do not canonicalise the header name: headers written in another case are not found", raw-canon, raw))
 	// every bind call's error is collected
 	calls := l.Find(regexp.MustCompile(`if err := ⟦\.ReceiverName⟧\.bind⟦pascalize \.ID⟧\(`))
-	coll := l.Find(regexp.MustCompile(`if err := ⟦\.ReceiverName⟧\.bind⟦pascalize \.ID⟧\([^\n]*\); err != nil \{\s*(⟦[^⟧]*⟧)?\s*(// Required: true)?\s*res = append\(res, err\)`))
+	coll := l.Find(regexp.MustCompile(loosen(`if err := ⟦\.ReceiverName⟧\.bind⟦pascalize \.ID⟧\([^\n]*\); err != nil \{\s*(⟦[^⟧]*⟧)?\s*(// Required: true)?\s*res = append\(res, err\)`)))
 	c.Check(len(calls) == len(coll) && len(calls) >= 8, rule, "serverParameter › BindRequest › bind errors are collected", l.Tree.File, fmt.Sprintf("%d bind calls", len(calls)), fmt.Sprintf("%d of %d bind calls do not append their error to res: a failed parameter does not fail the request", len(calls)-len(coll), len(calls)))
 }
 
@@ -423,11 +436,11 @@ func checkBinderLoops(c *Ctx, ev *tmpl.Evaluator) {
 		if i := strings.LastIndexByte(prev, '\n'); i >= 0 {
 			prev = prev[i+1:]
 		}
-		ok := strings.Contains(prev, "res = append(res, ")
+		ok := regexp.MustCompile(`\w+ = append\(\w+, `).MatchString(prev)
 		c.Check(ok, rule, fmt.Sprintf("bodyvalidator › break #%d follows an appended error", k), l.Tree.PosStr(l.PosAt(m[0])), "break after res = append(res, …)",
 			"a validation loop is left without an error having been recorded (`"+strings.TrimSpace(prev)+"` precedes the break): the remaining body items are never validated and an invalid request reaches the handler")
 	}
-	nc := len(regexp.MustCompile(`== nil \{\s*(res = append[^\n]*\s*break\s*)?continue`).FindAllString(l.Text, -1))
+	nc := len(regexp.MustCompile(loosen(`== nil \{\s*(res = append[^\n]*\s*break\s*)?continue`)).FindAllString(l.Text, -1))
 	c.Check(nc >= 2, rule, "bodyvalidator › absent optional elements are skipped with continue", l.Tree.File, fmt.Sprintf("%d skips", nc), "the nil-element skip of the body item loops does not `continue` with the next element")
 }
 
